@@ -244,6 +244,10 @@ Definition dec_filter (x : sx) : option (option rfilter) :=
   | _ => None
   end.
 
+(* "filter-rejected-hardlink-source" *)
+Definition sig_filter_link : bytes :=
+  [102;105;108;116;101;114;45;114;101;106;101;99;116;101;100;45;104;97;114;100;108;105;110;107;45;115;111;117;114;99;101].
+
 Definition run_0302_opt (ops : list sx) (dest : bytes) (pks : list sx) (mg : N) (mo : option (stat -> bool))
                         (flt : option rfilter) (impl : sx) : sx :=
   match impl with
@@ -285,10 +289,30 @@ Definition run_0302_opt (ops : list sx) (dest : bytes) (pks : list sx) (mg : N) 
                         end in
         let ran := N.leb cls 3 in
         let code := (if contained then 0 else 1) + (if rejected then 0 else 2) + (if ran then 0 else 4) in
+        (* known finding filter-rejected-hardlink-source: with a Filter that rejects a subtree the
+           hard-link validator still records the rejected entries, so a transferred hard link may
+           name a source the disk writer skipped; link(2) then resolves dest/<Linkname> through
+           whatever the destination holds there.  Signature: there are transferred hard links whose
+           Linkname the filter rejects, and the outside views differ only in link count / ctime of
+           the inodes found afterwards under the names of those links. *)
+        let bad_links := match flt with
+                         | None => []
+                         | Some fl =>
+                           flat_map (fun pk => match pk with
+                                               | PStat (Some s) =>
+                                                 if is_hardlink_stat s && negb (f_rej fl (st_path s)) && f_rej fl (st_linkname s)
+                                                    && match mo with Some sel => sel s | None => true end
+                                                 then [child_path destreal (st_path s)] else []
+                                               | _ => [] end) packets
+                         end in
+        let linked := map re_ino (filter (fun e => mem_bytes (re_path e) bad_links) after) in
         let sig := if negb contained && rejected && ran
                       && sx_eqb (outside_view_nometa destreal shared before) (outside_view_nometa destreal shared after)
                    then [SL [SB [115; 105; 103]; SB [104;97;114;100;108;105;110;107;45;114;101;115;116;97;109;112;115;45;
                                                      115;104;97;114;101;100;45;105;110;111;100;101]]]
+                   else if negb contained && rejected && ran && negb (is_nil linked)
+                           && sx_eqb (outside_view destreal (shared ++ linked) before) (outside_view destreal (shared ++ linked) after)
+                   then [SL [SB [115; 105; 103]; SB sig_filter_link]]
                    else [] in
         verdict model implv (contained && rejected && ran) (SL (SN code :: of_optnat bad :: sig))
       | _, _ => v_malformed
